@@ -573,6 +573,12 @@ type Mutation { m: Int }
 `
 
 var handRuleDocs = []string{
+	// an unknown field on an abstract type that only the SECOND possible type has (the suggestion path looks at
+	// the possible types), then a condition on the first possible type inside the same abstract type
+	`{ i { y ... on A { z } } }`, `{ i { y ...FA } j: i { ... on A { x } ... on B { y } } } fragment FA on A { x }`, `{ u { y ... on A { x } ... on B { x } } }`,
+	`{ i { o ... on A { o { x } } ... on B { x } } k: i { ... on A { z } } }`,
+	// a percent sign inside a value that is quoted back in a message, close enough to an enum value to be suggested
+	`{ e(v: "RED%") }`, `{ e(v: "%sRED") }`, `{ e(v: """GRE%EN""") }`, `{ e(v: "RED%d%v") }`, `{ e(v: "GREEN%!(EXTRA)") a { x%: x } }`, `query($v: E = "RE%D") { e(v: $v) }`,
 	// a nullable variable as an ITEM of a list given to a position that declares a default (the default lifts the
 	// non-null requirement of the position, not of its items)
 	`query($v: Int) { wd(ids: [$v]) }`, `query($v: Int!) { wd(ids: [$v]) }`, `query($v: Int) { wd(ids: [1, $v]) }`, `query($s: String) { wd(o: {tags: [$s]}) }`, `query($s: String!) { wd(o: {tags: [$s], plain: [$s]}) }`,
